@@ -43,6 +43,9 @@ def gen_cases(tier, seed):
                        "maxinneriters": int(rng.choice([1, 3, 10])), "stoptol": float(rng.choice([1e-4, 1e-8, 1e-2])),
                        "precompinds": bool(rng.integers(0, 2)), "inexact": bool(rng.integers(0, 2)), "lbfgsMem": int(rng.choice([1, 3])),
                        "kappa": float(rng.choice([0.01, 0.1])), "printitn": int(rng.choice([0, 0, 1])),
+                       # third loop exit: the time budget (already exhausted / exhausted at once / generous); decided after a sweep, so
+                       # a run always performs at least one and reports exactly what it performed
+                       "stoptime": [None, None, None, 0.0, -1.0, 1e6][int(rng.integers(0, 6))],
                        "cseed": int(seed) * 67867967 + next(cs)}
 
 
@@ -87,6 +90,9 @@ def run_case(case, ctx):
              inexact=case["inexact"], lbfgsMem=case["lbfgsMem"], maxinneriters=case["maxinneriters"])
     ll0 = loglik(X, np.maximum(denote(M0), 0))
     opts = {"algorithm": alg, "stoptol": case["stoptol"], "maxinneriters": case["maxinneriters"], "printitn": case["printitn"], "printinneritn": 0}
+    if case.get("stoptime") is not None:
+        opts["stoptime"] = case["stoptime"]
+    ctx.feat(stoptime=("default" if case.get("stoptime") is None else "exhausted" if case["stoptime"] <= 0 else "generous"))
     if alg != "mu":
         opts.update(precompinds=case["precompinds"], inexact=case["inexact"])
     if alg == "pqnr":
@@ -116,6 +122,12 @@ def run_case(case, ctx):
         k = np.asarray(out["kktViolations"]).reshape(-1)
         ctx.check(not bool((k < 0).any()), "cp_apr", "KKT", f"negative KKT violation entry: {k.tolist()}")
         ctx.check(1 <= len(k) <= mi, "cp_apr", "ITERS", f"{len(k)} KKT entries for maxiters={mi}")
+        if case.get("stoptime") is not None and case["stoptime"] <= 0:
+            ctx.check(len(k) == 1, "cp_apr", "ITERS", f"time budget exhausted from the start: {len(k)} KKT entries, want exactly the one sweep performed")
+        for key in ("nTotalIters", "nInnerIters", "times", "nViolations", "nZeros", "fnVals", "fnEvals"):
+            if key in out and np.ndim(out[key]) >= 1:
+                ctx.check(len(np.asarray(out[key]).reshape(-1)) == len(k), "cp_apr", "ITERS", f"output '{key}' has {len(np.asarray(out[key]).reshape(-1))} entries, kktViolations has {len(k)}",
+                          which=key)
         nouter = out.get("nOuterIters", out.get("iters"))
         ctx.check((not np.isfinite(ll0)) or (np.isfinite(ll) and ll >= ll0 - 1e-6 * abs(ll0)), "cp_apr", "WORSE-THAN-GUESS", f"log-likelihood of result {ll!r} < that of the guess {ll0!r}", maxiters=mi)
 
